@@ -25,7 +25,7 @@ def gen_cases(ctx):
                     st = r.choice(["walk", "segments", "gaps", "grid", "tinybars"])
                     feeds = [("b", 0) + b for b in bar_stream(r, n, st, p=p)]
                 else:
-                    st = r.choice(["walk", "ties", "periodic", "pgrid", "flatafter", "segments", "uniform", "tiny", "huge"])
+                    st = r.choice(["walk", "ties", "periodic", "pgrid", "flatafter", "segments", "uniform", "tiny", "huge", "crash", "crash"])
                     feeds = [("n", 0, x) for x in scalar_stream(r, n, st, p=p, positive=True)]
                 cases.append(Case("%s_p%d_%d" % (ind, p, rep), [new_op(0, ind, pr)] + feeds, dump=(),
                                   meta={"ind": ind, "p": p, "n": n, "style": st}))
